@@ -85,6 +85,11 @@ Section Addr.
       + apply in_map_iff. exists ctx. split; [reflexivity|]. cbn. intuition.
       + apply (endpoint_nonempty _ _ d'). exists e. auto.
   Qed.
+
+  Lemma receiver_addrs_exact c svc b :
+    (forall d, In d (receiver_addrs c svc b) -> own_endpoint c svc b d)
+    /\ ((exists d', own_endpoint c svc b d') -> receiver_addrs c svc b <> []).
+  Proof. split; [apply receiver_addrs_sound|apply receiver_addrs_nonempty]. Qed.
 End Addr.
 
 Lemma kind_eqb_eq a b : kind_eqb a b = true <-> a = b.
@@ -412,3 +417,6 @@ Section Proofs.
     rewrite E4. reflexivity.
   Qed.
 End Proofs.
+
+Arguments well_transported {cert esig dsig doc}.
+Arguments good_enveloped {key cert esig dsig doc}.
